@@ -107,6 +107,19 @@ def run_group(item):
     ops = ['<=', '<', '='] if ed else ['>=', '>', '=']
     out = {'gid': gid, 'laws': [], 'api': []}
     res_by_op = {}
+    if g.get('prewarm'):
+        # a call of the same entry point on the same data made first in this process, with another q-gram length
+        # (edit distance) or another threshold: whatever it leaves behind must not change the calls judged below
+        pc = dict(base, op=ops[0])
+        if ed:
+            q0 = base['tok'].get('q', 2)
+            pc['tok'] = dict(base['tok'], q=(q0 - 1 if (q0 > 1 and gid % 4 < 3) else q0 + 1))
+        else:
+            pc['t'] = g['t2']
+        try:
+            record.execute(pc)
+        except Exception:
+            pass
     for op in ops:
         c = dict(base, op=op)
         obs, res, tabs, rows = rows_of(c, km)
@@ -241,7 +254,7 @@ def make_groups(tier, seed):
         first = rng.choice(['PREFIX', 'SIZE', 'POSITION']) if ed else rng.choice(['SIZE', 'PREFIX', 'POSITION', 'OVERLAP'])
         if case['meas'] == 'OVERLAP_COEFFICIENT':
             first = 'OVERLAP'
-        groups.append({'case': case, 't2': t2, 'first_stage': first, 'validate': True,
+        groups.append({'case': case, 't2': t2, 'first_stage': first, 'validate': True, 'prewarm': int(ed or gi % 2 == 0),
                        'pipe_op': rng.choice(['<=', '<=', '<', '='] if ed else ['>=', '>=', '>', '=']),
                        'n_jobs_f': rng.choice([1, 2, 3, 7]), 'n_jobs_m': rng.choice([1, 3, 6, 9]), 'src': 'random#%d' % gi})
     # self-joins: ONE DataFrame object passed as both tables, joined on two different string columns
